@@ -36,6 +36,8 @@ MIN_COUNTERS = {
     "keys_conclusive": {"quick": 340, "thorough": 340},
     "prefix_checked": {"quick": 4000, "thorough": 60000},
     "modifier_pairs_completed": {"quick": 1000, "thorough": 1000},
+    "shared_row_entries_checked": {"quick": 300, "thorough": 3000},
+    "call_as_monad_checked": {"quick": 5, "thorough": 50},
 }
 MAX_INCONCLUSIVE_ABS = 5
 UNIT_TIMEOUT = 900
@@ -85,10 +87,26 @@ def setup_worker():
     _pop_status = "attached"
 
 
+def _eager_view(v, depth=0):
+    """Value of the eager part of a structure; a lazy list inside is represented by its identity only
+    (its cache may legitimately grow when somebody reads it)."""
+    if type(v) is list and depth < 12:
+        return [_eager_view(x, depth + 1) for x in v]
+    if type(v).__name__ == "LazyList":
+        return ("lazy-list-object", id(v))
+    if callable(v):
+        return ("function", id(v))
+    return repr(v)
+
+
 def _exempt(kind, program, specs, mod=None):
     from lib.gen import elemcases as ec
 
     if kind == "key":
+        if program == "†" and specs and not ec.has_fn(specs[-1]) and not isinstance(specs[-1], str):
+            # the call element applied to a number or a list is an ordinary monad (documented overloads:
+            # count of prime factors / vectorised not): it consumes one entry and leaves one result
+            return None
         if program in ec.WHOLE_STACK_KEYS:
             return "whole_stack_operation"
         if program in ec.PRINT_KEYS and any(ec.has_fn(s) for s in specs):
@@ -115,10 +133,19 @@ def run_case(program, specs, res, kind="key", mod=None, replay_unit=None):
         return "nobuild"
     sent = ec.make_sentinels()
     snapshot = ec.sentinel_snapshot()
-    stack = sent + args
+    # hostile lower entry: a list that *shares its rows* with an argument (what `:` leaves behind:
+    # the duplicate of a nested list is a shallow view). It is below everything the element consumes.
+    shadow = None
+    for a, sp in zip(args, specs):
+        if type(a) is list and isinstance(sp, list) and any(type(x) is list for x in a):
+            shadow = list(a)
+            break
+    lower = sent + ([shadow] if shadow is not None else [])
+    shadow_before = _eager_view(shadow) if shadow is not None else None
+    stack = lower + args
     frame.reset()
     if _pop_guard is not None:
-        _pop_guard.begin_case(stack, len(sent))
+        _pop_guard.begin_case(stack, len(lower))
     run = ec.execute([program], stack)
     if _pop_guard is not None:
         pops = list(_pop_guard.events)
@@ -150,6 +177,18 @@ def run_case(program, specs, res, kind="key", mod=None, replay_unit=None):
             if frame.render(st[i]) != snapshot[i]:
                 problems.append(("prefix_mutated", f"sentinel {i} now reads {frame.render(st[i])!r}"))
                 break
+    if not problems and shadow is not None:
+        c["shared_row_entries_checked"] = c.get("shared_row_entries_checked", 0) + 1
+        if len(st) < 4 or st[3] is not shadow:
+            problems.append(("prefix_replaced", "the lower entry sharing rows with an argument is no longer there"))
+        elif _eager_view(shadow) != shadow_before:
+            problems.append(("lower_entry_value_changed", f"a lower entry sharing rows with an argument read {shadow_before!r} "
+                             f"before and reads {_eager_view(shadow)!r} after"))
+    if not problems and kind == "key" and program == "†":
+        c["call_as_monad_checked"] = c.get("call_as_monad_checked", 0) + 1
+        if len(st) != len(lower) + len(args):
+            problems.append(("result_count", f"† on a non-function consumed one entry and left {len(st) - len(lower) - len(args) + 1} results "
+                             f"(stack height {len(st)}, expected {len(lower) + len(args)})"))
     if pops:
         p = pops[0]
         problems.append(("pop_below_line", f"pop of {p['count']} requested with {p['stack_len']} entries on the stack "
